@@ -16,6 +16,9 @@ THEOREMS = [
     'Dp.websocket_meta_is_400', 'Dp.dispatchHttp_eq',
     'Dp.groupdict_keys', 'Dp.sink_kwargs_exact', 'Dp.sink_kwargs_nonparticipating', 'Dp.non_sink_kwargs_empty',
     'Dp.init_default', 'Dp.sink_static_order_init',
+    'Dp.find_addRoute', 'Dp.history_find', 'Dp.latest_registration_wins', 'Dp.accepted_call_rebinds', 'Dp.rejected_call_is_noop',
+    'Dp.accepted_iff', 'Dp.reregistered_route_exact', 'Dp.unregistered_template',
+    'Dp.effSuffix_empty', 'Dp.effSuffix_none', 'Dp.effSuffix_nonempty',
 ]
 STATEMENTS = {
     'Dp.route_masks': 'whenever the router returns a route for the path, _get_responder answers from that route\'s method map alone, whatever sinks and static routes are registered and whatever they match',
@@ -36,18 +39,29 @@ STATEMENTS = {
     'Dp.sink_kwargs_nonparticipating': 'if no group of the chosen sink\'s pattern took part in the match (Match.lastindex is None) the sink still receives every named group as a keyword argument, all None',
     'Dp.non_sink_kwargs_empty': 'with match objects as the table: a static route and the 404 responder get no kwargs, a routed request gets the template fields',
     'Dp.init_default': 'an app constructed without sink_before_static_route is the app constructed with True',
+    'Dp.latest_registration_wins': 'after ANY history of add_route calls on a fresh router the node of template t carries the method map built by the LATEST accepted call for t (from the responders the resource object had at that call and the suffix of that call) - whatever was registered for t before, also when it was the very same resource object; None if no accepted call named t',
+    'Dp.history_find': 'the same for a history applied to an arbitrary router state (templates without a later call keep their node)',
+    'Dp.find_addRoute': 'one insert() overrides the node of its own template and leaves every other template alone',
+    'Dp.accepted_call_rebinds': 'an accepted add_route call binds its template to exactly the method map computed in that call and changes no other template',
+    'Dp.rejected_call_is_noop': 'a call that raises SuffixedMethodNotFoundError leaves the router as it was',
+    'Dp.accepted_iff': 'add_route is accepted iff the suffix is None/empty or some method of COMBINED_METHODS has a callable on_<m>_<suffix> with exactly that suffix text',
+    'Dp.reregistered_route_exact': 'if r is the latest accepted call for t then on the route t: the resource responder for m runs iff m is in COMBINED_METHODS and r.resource had a callable on_<m>[_<r.suffix>] at that call (suffix compared verbatim, empty = none); OPTIONS advertises exactly those methods (without WEBSOCKET), 405 exactly those plus OPTIONS',
+    'Dp.unregistered_template': 'a template no accepted call named has no node',
+    'Dp.effSuffix_empty': "suffix='' selects the unsuffixed responders, like None",
+    'Dp.effSuffix_nonempty': 'every non-empty suffix is used verbatim (letter case, digits, underscores are significant)',
     'Dp.sink_static_order_init': 'sink_static_order for the app the constructor returns (falcon.App / falcon.API / falcon.asgi.App), whether the option was given or left out',
 }
 TRUSTED = [
-    're.Pattern.match (whether it matches, Pattern.groupindex, Match.group(i) of every group) and StaticRoute.match enter the model as a table read off the real matchers; groupdict() is computed by the model; the oracle recomputes static matching from the documented prefix rule',
+    're.Pattern.match (whether it matches, Pattern.groupindex, Match.group(i) of every group) and StaticRoute.match enter the model as a table read off the real matchers - for a sink: off the very object the application passed to add_sink (a str prefix is compiled by the harness), never off what the app stored; groupdict() is computed by the model; the oracle recomputes static matching from the documented prefix rule',
     'Python argument binding (positional / keyword) of the app constructors is not modelled: the model receives the value the test author passed for sink_before_static_route, or "default"',
-    'the router\'s answer for the path enters the model as an input (C01 verifies the router); the oracle uses its own template matcher',
+    'which uri_template the router finds for the path enters the model as an input (C01 verifies the router tree); which method map that template carries after the history of add_route calls is computed by the model; the oracle uses its own template matcher and the latest accepted registration',
+    'getattr/callable on the resource object enter the model as the list of callable on_* attributes at each add_route call',
     'sortedness of the Allow lists is carried by the correspondence (lists are compared in order), not by a theorem',
     'what a static route serves once chosen (C16)',
 ]
 ASSUMPTIONS = [
     'FALCON_CUSTOM_HTTP_METHODS is unset (COMBINED_METHODS = 9 HTTP + 13 WebDAV + WEBSOCKET; the real tuple is passed to the model on every line)',
-    'suffix is None or a non-empty identifier; the router is a CompiledRouter (the default one or an instance passed as router=); middleware, if any, is passive (its hooks change nothing); default error handlers and serializer',
+    'suffix is None, the empty string (read as "no suffix": the keyword is optional and an empty name selects no other responder family) or a non-empty identifier tail (letters of either case, digits, underscores; compared verbatim, as Python attribute names are); a resource object changes its responders only immediately before every template bound to it is registered again (whether a route follows later changes of its resource object is not something the statement decides); the router is a CompiledRouter (the default one or an instance passed as router=); middleware, if any, is passive (its hooks change nothing); default error handlers and serializer',
     'sink_before_static_route has no public attribute or setter after construction (App.__slots__ holds only the private _sink_before_static_route), so the constructor is the only public way to configure it',
     'the 405 close code of a WebSocket handshake carries no Allow list; for WebSocket requests the Allow list is observed on the responder returned by App._get_responder only',
 ]
@@ -56,13 +70,23 @@ RULE = ('random apps constructed through every public entry point (falcon.App, t
         'passed by keyword or passed positionally (0..8 positional arguments), with the documented default or a dispatch-neutral alternative value (passive middleware, '
         'an explicit CompiledRouter() - on WSGI routes are then sometimes added on that router directly -, cors_enable=True, Request/Response subclasses); '
         'sink_before_static_route omitted / True / False; 0..8 registrations in random order, in one or two phases with requests after each phase - '
-        'routes over 7 templates bound to resources with random subsets of the 22 methods + WEBSOCKET as on_<m>, on_<m>_alt, on_<m>_x (some attributes non-callable, '
-        'some resources shared by two routes with different suffix=); the RESOURCE OBJECT itself is an input: a plain instance, or (about half of the resources) an object whose truth value is False - '
+        'routes over 7 templates bound to resources with random subsets of the 22 methods + WEBSOCKET as on_<m> and up to four suffixed families on_<m>_<s> (some attributes non-callable, '
+        'some resources shared by two routes with different suffix=); SUFFIX SPELLINGS: s from alt, x, byId, byid, v2Beta, v2beta, JSON, json, by_id, By_Id, ALT, X, x1, _x, Item2 - mixed case, digits, underscores, '
+        'and TWIN families on one resource that are equal after lower-casing (on_get_byId beside on_get_byid, with different method sets); add_route is called without suffix, with suffix=None, suffix=\'\' (= no suffix; '
+        'a decoy on_<m>_ attribute is sometimes present), with a family the resource has, or with another spelling of one (twin / lower / upper / capitalised: then either the twin family is selected or the call is rejected); '
+        'every add_route call is also put to the model (accepted / SuffixedMethodNotFoundError); '
+        'REGISTRATION HISTORIES THAT RE-REGISTER: with probability 0.4 a route registration names a template that is registered already - the same resource object with another suffix, the same object with the same suffix, '
+        'the same object after it GAINED and/or LOST responders (setattr / delattr / replaced by a non-callable; all templates bound to the object are then registered again, same or other suffix), or another object (new, or one bound elsewhere); '
+        'up to 3+ registrations per template, before and after requests (two phases); the LATEST accepted registration defines responder identity, 405 Allow and OPTIONS Allow; request paths are biased to re-registered templates, '
+        'request methods to those implemented by the current AND by replaced registrations; '
+        'the model receives the whole history of add_route calls (template, object id, suffix as passed, callable on_* attributes at that moment) plus the uri_template the router returned; the RESOURCE OBJECT itself is an input: a plain instance, or (about half of the resources) an object whose truth value is False - '
         'an empty dict subclass, an empty list subclass, a class with __len__ == 0, a class with __bool__ False - or changes between requests (a __bool__ flag / a list-subclass collection the harness '
         'fills and empties before each request); a matched route is a matched route whatever bool(resource) is (the model receives the router\'s answer as an Option, so it cannot tell the kinds apart: '
         'truthy and falsy resources must produce the same replies), 7 overlapping sink regexes with mandatory named groups plus 12 whose named groups need not take part in a match '
         '(optional groups, groups in one branch of an alternation, nested optional groups, a repeated group, an empty-text group, unnamed groups beside named ones, an inline flag), '
-        'registered as str, compiled pattern, by keyword or with the default prefix; the kwargs a sink receives are compared key-by-key (None is distinguished from the empty string); 9 static routes '
+        'registered as str, compiled pattern, by keyword or with the default prefix; 30% of the sinks are PRECOMPILED PATTERN OBJECTS WITH FLAGS (15 pattern/flag pairs: re.I, re.X with whitespace, newlines and comments in the pattern text, '
+        're.S, re.A against \\w / \\d, re.M, re.U as a control, and the combinations I|X, A|I|X, S|X, I|M, I|S|A), each with paths on which the flags decide whether it matches or what a named group holds (other letter case, a newline in the path, '
+        'a non-ASCII word character / digit); 40% of the requests to an app with such a sink use one of those paths; the oracle and the model\'s match table use the object the application passed; the kwargs a sink receives are compared key-by-key (None is distinguished from the empty string); 9 static routes '
         '(shared prefixes, with/without fallback_filename), both sink_before_static_route values; 6..10 requests per app: paths biased to registered templates, '
         'methods biased to implemented ones plus WEBSOCKET and an unknown method; ASGI additionally WebSocket handshakes. '
         'Each request is observed twice: on the responder returned by App._get_responder (invoked on a fresh request/response) and through the full WSGI/ASGI call. '
@@ -95,6 +119,35 @@ SINKS_OPT = [
     r'/(?:a/(?P<leaf>b)|(?P<top>a))?',                              # alternation of named groups inside an optional group
     r'(?i)/s(?P<tail>/x)?',                                         # inline flag + optional group
 ]
+# (11) sink prefixes given as PRECOMPILED pattern objects WITH FLAGS: (pattern text, flag names, paths on which the flags decide).
+# Whether such a sink matches a path - and what its named groups hold - is defined by the object the application passed.
+_VERBOSE_ST = """
+    /st/                    # looks like the static prefix
+    (?P<file> [a-z.]+ )     # the file name
+"""
+SINKS_FLAGGED = [
+    (r'/s(?P<tail>/x)?', ('I',), ['/S/x', '/S/X', '/S', '/s/X']),
+    (r'/api/(?P<version>v\d+)', ('I',), ['/API/V2', '/api/v2', '/Api/v10/x', '/api/V2']),
+    (_VERBOSE_ST, ('X',), ['/st/f.txt', '/st/nope', '/st/']),
+    (r'/q (?: /(?P<rest>[a-z]+) )?   # the rest is optional', ('X',), ['/q', '/q/r', '/q/']),
+    (r'/nl/.(?P<after>[a-z]*)', ('S',), ['/nl/\nx', '/nl/ax', '/nl/\n']),
+    (r'/blob/(?P<rest>.+)\Z', ('S',), ['/blob/a\nb', '/blob/ab', '/blob/\n']),
+    (r'/u/(?P<name>\w+)', ('A',), ['/u/zo\u00eb', '/u/\u00e9mile/x', '/u/zoe']),
+    (r'/d/(?P<n>\d+)$', ('A',), ['/d/\u0663', '/d/3', '/d/3\u0663']),
+    (r'/m/(?P<a>[a-z]+)$', ('M',), ['/m/ab\ncd', '/m/ab', '/m/ab\n']),
+    (r'/API/ (?P<v> v[0-9]+ )  # version', ('I', 'X'), ['/api/v2', '/API/V2', '/Api/V10/x']),
+    (r'/U/ (?P<name> \w+ ) $', ('A', 'I', 'X'), ['/u/zoe', '/U/zo\u00eb', '/u/Z']),
+    (r'/nl/ (?P<all> .+ ) \Z', ('S', 'X'), ['/nl/\nx', '/nl/a\nb', '/nl/ax']),
+    (r'/(?P<one>[a-z]+)$', ('I', 'M'), ['/ZZ', '/zz\nq', '/Q']),
+    (r'/s/(?P<rest>.*)', ('I', 'S', 'A'), ['/S/x', '/s/y\nz', '/s/\u00e9']),     # every flag matters on some path
+    (r'/st', ('U',), ['/st', '/st/f.txt', '/ST']),                                  # control: a flag that changes nothing
+]
+FLAG_PATHS = sorted({p for _, _, ps in SINKS_FLAGGED for p in ps})
+# (12) responder-name suffixes as an application may spell them: mixed case, digits, underscores; several of them are EQUAL AFTER
+# LOWER-CASING (twin families on_get_byId / on_get_byid on one resource).  '' (route side only) means "no suffix", like None.
+SUFFIXES = ['alt', 'x', 'alt', 'x', 'byId', 'byid', 'v2Beta', 'v2beta', 'JSON', 'json', 'by_id', 'By_Id', 'ALT', 'X', 'x1', '_x', 'Item2']
+TWIN = {'byId': 'byid', 'byid': 'byId', 'v2Beta': 'v2beta', 'v2beta': 'v2Beta', 'JSON': 'json', 'json': 'JSON', 'by_id': 'By_Id', 'By_Id': 'by_id',
+        'alt': 'ALT', 'ALT': 'alt', 'x': 'X', 'X': 'x', 'x1': 'X1', '_x': '_X', 'Item2': 'item2'}
 # what kind of object is registered as the resource (the statement quantifies over resources; any object with on_* attributes is one):
 # truthy, falsy in four ways, or with a truth value that the harness changes between requests
 RES_KINDS = ['plain', 'plain', 'plain', 'plain', 'plain', 'empty_dict_subclass', 'empty_list_subclass', 'len_0', 'bool_false',
@@ -110,11 +163,20 @@ STATICS = [('/st/', 'a', None), ('/st', 'b', None), ('/st2/', 'b', None), ('/s/'
            ('/st', 'a', 'f.txt'), ('/st/', 'a', 'f.txt'), ('/s/', 'b', 'f.txt'), ('/st2/', 'b', 'f.txt')]   # fallback with and without the trailing slash in the registered prefix
 
 
+def esc(v):
+    """text of the line protocol: a newline (paths may contain one) is written as backslash-n"""
+    return v.replace('\\', '\\\\').replace('\n', '\\n').replace('\r', '\\r')
+
+
+def attr_name(m, s):
+    return 'on_' + m.lower() + ('_' + s if s is not None else '')
+
+
 def kwstr(kw):
     """`k:v` for a text value (possibly empty), bare `k` for None; sorted by key."""
-    items = sorted((str(k), None if v is None else str(v)) for k, v in dict(kw).items())
+    items = sorted((str(k), None if v is None else esc(str(v))) for k, v in dict(kw).items())
     for k, v in items:
-        assert not (set(k + (v or '')) & set(' ;:|>,@')) and k != '-', (k, v)
+        assert not (set(k + (v or '')) & set(' ;:|>,@\n\r\t')) and k != '-', (k, v)
     return ';'.join(k if v is None else f'{k}:{v}' for k, v in items) or '-'
 
 
@@ -144,21 +206,43 @@ class Reg:
         self.sbs = sbs         # the configured order: the value given to the constructor, True (documented default) if none was given
         self.ctor = ctor or {} # how the app object was constructed: entry point, which options positionally / by keyword
         self.resources = {}    # res id -> {'attrs': set((method, suffix)), 'noncallable': set((method, suffix)), 'kind': what object the resource is (RES_KINDS)}
-        self.routes = []       # (template, res id, suffix)
+        self.routes = []       # (template, res id, suffix as passed) - every ACCEPTED add_route call in order; the latest one for a template is its registration
+        self.route_calls = []  # every add_route call, accepted or not: (template, res id, suffix as passed, the resource's callable on_* attributes at that moment)
+        self.history = []      # readable log of everything done to the app and to the resource objects, in order
+        self.sinkarg = {}      # k -> what the application passed as the sink prefix: a str, or a compiled pattern object (with its flags)
+        self.sinkflags = {}    # k -> None (passed as str) | tuple of flag letters the pattern object was compiled with
+        self._pat = {}
         self.sinks = []        # (pattern string, k) in registration order
         self.statics = []      # (prefix, dirkey, fallback, k) in registration order
         self.ops = []          # 's<k>' / 't<k>' in registration order
 
     def sig(self):
         return (self.sbs, self.ctor.get('entry'), self.ctor.get('sbs_arg'), self.ctor.get('call'), tuple(sorted((r, d.get('kind'), tuple(sorted(map(str, d['attrs'])))) for r, d in self.resources.items())),
-                tuple(self.routes), tuple(self.sinks), tuple(self.statics))
+                tuple(self.routes), tuple(self.sinks), tuple(sorted((k, v) for k, v in self.sinkflags.items() if v is not None)), tuple(self.statics), len(self.history))
 
     def describe(self):
         return {'sink_before_static_route': self.sbs, 'constructed_by': self.ctor.get('call'),
-                'resources': {r: sorted('on_' + m.lower() + ('_' + s if s else '') for m, s in d['attrs']) for r, d in self.resources.items()},
+                'resources': {r: sorted(attr_name(m, s) for m, s in d['attrs']) for r, d in self.resources.items()},
                 'resource_objects': {r: d.get('kind', 'plain') for r, d in self.resources.items()},
-                'noncallable': {r: sorted('on_' + m.lower() + ('_' + s if s else '') for m, s in d['noncallable']) for r, d in self.resources.items() if d['noncallable']},
-                'routes': list(self.routes), 'sinks': list(self.sinks), 'statics': list(self.statics), 'order_of_adds': list(self.ops)}
+                'noncallable': {r: sorted(attr_name(m, s) for m, s in d['noncallable']) for r, d in self.resources.items() if d['noncallable']},
+                'routes': list(self.routes), 'sinks': list(self.sinks),
+                'sink_prefix_passed_as': {k: ('str' if f is None else 're.compile(%r, %s)' % (self.sinkarg[k].pattern, '|'.join('re.' + x for x in f) or '0')) for k, f in self.sinkflags.items()},
+                'statics': list(self.statics), 'order_of_adds': list(self.ops), 'history': list(self.history)}
+
+    def sink_pattern(self, k):
+        """what decides whether sink k matches: the pattern object the application passed; a str prefix is a regex matched from the start of the path"""
+        import re
+        if k not in self._pat:
+            a = self.sinkarg[k]
+            self._pat[k] = re.compile(a) if isinstance(a, str) else a
+        return self._pat[k]
+
+    def current_routes(self):
+        """template -> (res id, suffix as passed) of the LATEST accepted add_route call for the template"""
+        cur = {}
+        for tm, rid, sfx in self.routes:
+            cur[tm] = (rid, sfx)
+        return cur
 
     # ---- the property statement, executed on the history
     def static_matches(self, prefix, fallback, path):
@@ -172,10 +256,11 @@ class Reg:
             return {'k': '400'}
         m = 'WEBSOCKET' if kind == 'ws' else method
         cands = []
-        for tm, rid, sfx in self.routes:
+        for tm, (rid, sfx) in self.current_routes().items():
             f = tmpl_match(tm, path)
             if f is not None:
-                cands.append((sum(1 for seg in tm.split('/') if seg.startswith('{')), tm, rid, sfx, f))
+                # suffix='' is "no suffix" (the keyword is optional; an empty name selects nothing else); otherwise the suffix is taken verbatim
+                cands.append((sum(1 for seg in tm.split('/') if seg.startswith('{')), tm, rid, sfx or None, f))
         if cands:
             cands.sort(key=lambda c: c[0])       # literal segments are preferred to fields
             _, tm, rid, sfx, f = cands[0]
@@ -192,7 +277,7 @@ class Reg:
         stt = [('static', px, fb, k) for px, d, fb, k in reversed(self.statics)]
         for o in (sk + stt if self.sbs else stt + sk):
             if o[0] == 'sink':
-                pat = re.compile(o[1])
+                pat = self.sink_pattern(o[2])
                 mt = pat.match(path)
                 if mt:
                     # "sink named groups arrive as the responder's keyword arguments": one per named group of the pattern
@@ -490,78 +575,227 @@ def _stack(ctx, root, asgi):
     def arun(coro):
         return loop.run_until_complete(asyncio.wait_for(coro, 30))
 
+    def fmt_attrs(attrs):
+        return ','.join(sorted(m + ('~' + sx if sx is not None else '') for m, sx in attrs)) or '-'
+
+    def fmt_reg(tm, rid, suffix, attrs):
+        return f"{TEMPLATES.index(tm)}:{rid}:{'-' if suffix is None else '=' + suffix}:{fmt_attrs(attrs)}"
+
+    def new_resource(reg, objs, rid):
+        """a resource object with a random set of responders: unsuffixed ones and up to three suffixed families, among them twins that
+        differ in letter case only"""
+        attrs = set()
+        for m in rnd.sample(ALLM, rnd.randint(0, 5)):
+            attrs.add((m, None))
+        fams = []
+        for sfx in ('alt', 'x'):
+            if rnd.random() < 0.4:
+                fams.append(sfx)
+        if rnd.random() < 0.45:
+            sfx = rnd.choice(SUFFIXES)
+            fams.append(sfx)
+            if rnd.random() < 0.6 and TWIN[sfx] in SUFFIXES:
+                fams.append(TWIN[sfx])                     # the twin family: equal after lower-casing, another name in Python
+        for sfx in dict.fromkeys(fams):
+            for m in rnd.sample(ALLM, rnd.randint(1, 4)):
+                attrs.add((m, sfx))
+        if rnd.random() < 0.3:
+            attrs.add(('WEBSOCKET', rnd.choice([None, 'alt'])))
+        if rnd.random() < 0.08:
+            attrs.add((rnd.choice(ALLM), ''))              # on_<m>_ (trailing underscore): reachable through no suffix at all
+        nonc = set()
+        for _ in range(rnd.choice([0, 0, 0, 1, 2])):
+            c = (rnd.choice(ALLM), rnd.choice([None, 'alt', 'x'] + fams))
+            if c not in attrs:
+                nonc.add(c)
+        rkind = rnd.choice(RES_KINDS)
+        res = RES_CLS[rkind]()
+        ctx.count(f'{stack}_resource_object_{rkind}')
+        for m, sx in attrs:
+            setattr(res, attr_name(m, sx), mk_responder(rid, m, sx))
+        for m, sx in nonc:
+            setattr(res, attr_name(m, sx), 'not callable')
+        reg.resources[rid] = {'attrs': attrs, 'noncallable': nonc, 'kind': rkind}
+        objs['res'][rid] = res
+        fam_set = {sx for (_, sx) in attrs if sx}
+        if any(a != b and a.lower() == b.lower() for a in fam_set for b in fam_set):
+            ctx.count(f'{stack}_resource_with_twin_suffix_families_equal_after_lower_casing')
+        reg.history.append(f'r{rid} = {rkind} object with ' + (', '.join(sorted(attr_name(m, sx) for m, sx in attrs)) or 'no responders'))
+        return rid
+
+    def families(reg, rid):
+        return sorted({sx for (_, sx) in reg.resources[rid]['attrs'] if sx})
+
+    def change_resource(reg, objs, rid):
+        """the resource object gains and/or loses responders (a suffix family in use never loses its last member, so that every
+        re-registration that follows is accepted)"""
+        d = reg.resources[rid]
+        res = objs['res'][rid]
+        what = []
+        todo = rnd.choice(['gain', 'gain', 'lose', 'lose', 'both'])
+        if todo in ('lose', 'both'):
+            for _ in range(rnd.randint(1, 2)):
+                cands = sorted((c for c in d['attrs'] if c[1] is None or sum(1 for x in d['attrs'] if x[1] == c[1]) >= 2), key=str)
+                if not cands:
+                    break
+                c = rnd.choice(cands)
+                d['attrs'].discard(c)
+                if rnd.random() < 0.5:
+                    delattr(res, attr_name(*c))
+                    what.append(f'lost {attr_name(*c)} (deleted)')
+                else:
+                    setattr(res, attr_name(*c), 'not callable any more')
+                    d['noncallable'].add(c)
+                    what.append(f'lost {attr_name(*c)} (now a non-callable attribute)')
+        if todo in ('gain', 'both') or not what:
+            for _ in range(rnd.randint(1, 2)):
+                c = (rnd.choice(ALLM), rnd.choice([None, None] + families(reg, rid) + [rnd.choice(SUFFIXES)]))
+                if c in d['attrs']:
+                    continue
+                d['attrs'].add(c)
+                d['noncallable'].discard(c)
+                setattr(res, attr_name(*c), mk_responder(rid, c[0], c[1]))
+                what.append(f'gained {attr_name(*c)}')
+        reg.history.append(f'r{rid} ' + ', '.join(what))
+        return bool(what)
+
+    def pick_suffix(reg, rid, avoid=()):
+        """a suffix for add_route as an application may pass it"""
+        fams = families(reg, rid)
+        r = rnd.random()
+        if r < 0.42:
+            cand = None
+        elif r < 0.47:
+            cand = ''                                         # suffix='' : no suffix
+        elif r < 0.9 or not fams:
+            cand = rnd.choice(fams or ['alt'])
+        else:
+            f = rnd.choice(fams)                              # another spelling of a family the resource has: another name, maybe no responder at all
+            cand = rnd.choice([TWIN.get(f, f.upper()), f.lower(), f.upper(), f.capitalize()])
+        if cand in avoid:
+            others = [x for x in [None] + fams if x not in avoid]
+            if others:
+                cand = rnd.choice(others)
+        return cand
+
+    def call_add_route(app, reg, objs, tm, rid, suffix, why):
+        """one add_route call (on the app, or on the router the app was constructed with) -> accepted?"""
+        d = reg.resources[rid]
+        snapshot = frozenset(d['attrs'])
+        target, on = app, 'app'
+        if objs['router'] is not None and not asgi and rnd.random() < 0.4:
+            target, on = objs['router'], 'router'               # a router handed to the constructor is the app's router
+            ctx.count('route_added_on_the_explicit_router')
+        how = 'omitted' if suffix is None and rnd.random() < 0.7 else 'given'
+        rejected = False
+        try:
+            if how == 'omitted':
+                target.add_route(tm, objs['res'][rid])
+            else:
+                target.add_route(tm, objs['res'][rid], suffix=suffix)
+        except falcon.routing.util.SuffixedMethodNotFoundError:
+            rejected = True
+        reg.route_calls.append((tm, rid, suffix, snapshot))
+        call = f"{on}.add_route({tm!r}, r{rid}" + ('' if how == 'omitted' else f', suffix={suffix!r}') + ')'
+        reg.history.append(call + (' -> SuffixedMethodNotFoundError' if rejected else '') + f'   [{why}]')
+        case = {'stack': stack, 'app': reg.describe(), 'template': tm, 'suffix': suffix, 'call': call}
+        sess.case(case)
+        sess.op(f"add combined={','.join(COMBINED)} regs={fmt_reg(tm, rid, suffix, snapshot)}", 'rejected' if rejected else 'ok')
+        ctx.count(f'{stack}_add_route_suffix_' + ('None' if suffix is None else 'empty_string' if suffix == '' else
+                                                  ('lower_case' if suffix == suffix.lower() else 'with_upper_case') + ('_with_digit_or_underscore' if not suffix.isalpha() else '')))
+        if rejected:
+            # documented: a suffix without any responder is rejected; the statement then has no (new) route
+            ok = bool(suffix) and not any(sx == suffix for (_, sx) in snapshot)
+            ctx.oracle('add_route(suffix=s) is rejected only when the resource has no on_*_s responder', ok,
+                       None if ok else f'{call} was rejected although the resource has ' + ', '.join(sorted(attr_name(m, sx) for m, sx in snapshot if sx == (suffix or None))),
+                       case)
+            ctx.count('add_route_rejected_empty_suffix')
+            return False
+        reg.routes.append((tm, rid, suffix))
+        objs['tmpl'][tm] = (rid, suffix)
+        return True
+
     def register(app, reg, objs, counter):
         kind = rnd.choice(['route', 'route', 'route', 'sink', 'sink', 'static', 'static'])
         k = counter[0]
         counter[0] += 1
         if kind == 'route':
-            free = [t for t in TEMPLATES if t not in {r[0] for r in reg.routes}]
-            if not free:
+            cur = reg.current_routes()
+            free = [t for t in TEMPLATES if t not in cur]
+            if cur and (not free or rnd.random() < 0.4):
+                # (10) a template that is registered already is registered AGAIN: the latest call defines the route
+                tm = rnd.choice(sorted(cur))
+                rid, sfx = cur[tm]
+                mode = rnd.choice(['same_object_other_suffix', 'same_object_other_suffix', 'same_object_other_suffix', 'same_object_same_suffix',
+                                   'same_object_changed', 'same_object_changed', 'same_object_changed', 'other_object', 'other_object'])
+                if mode == 'same_object_other_suffix':
+                    new = pick_suffix(reg, rid, avoid=(sfx,) if sfx else (None, ''))
+                    if (new or None) == (sfx or None):
+                        mode = 'same_object_same_suffix'
+                    call_add_route(app, reg, objs, tm, rid, new, mode)
+                elif mode == 'same_object_same_suffix':
+                    call_add_route(app, reg, objs, tm, rid, sfx, mode)
+                elif mode == 'same_object_changed':
+                    change_resource(reg, objs, rid)
+                    # every template the object is bound to is registered again, so that each route postdates the change
+                    bound = [tm] + [t for t, (r2, _) in sorted(cur.items()) if r2 == rid and t != tm]
+                    for t in bound:
+                        old = cur[t][1]
+                        fams = families(reg, rid)
+                        keep = (not old) or old in fams
+                        new = old if (keep and rnd.random() < 0.6) else rnd.choice([None] + fams)
+                        call_add_route(app, reg, objs, t, rid, new, mode + ('' if (new or None) == (old or None) else '_and_other_suffix'))
+                else:
+                    others = sorted(r for r in reg.resources if r != rid)
+                    rid2 = rnd.choice(others) if others and rnd.random() < 0.5 else new_resource(reg, objs, k)
+                    call_add_route(app, reg, objs, tm, rid2, pick_suffix(reg, rid2), mode)
+                ctx.count(f'{stack}_template_registered_again_{mode}')
+                objs['rereg'].add(tm)
                 return
             tm = rnd.choice(free)
             if reg.resources and rnd.random() < 0.25:
                 rid = rnd.choice(sorted(reg.resources))       # the same resource under a second template
             else:
-                rid = k
-                attrs = set()
-                for m in rnd.sample(ALLM, rnd.randint(0, 5)):
-                    attrs.add((m, None))
-                for sfx in ('alt', 'x'):
-                    if rnd.random() < 0.45:
-                        for m in rnd.sample(ALLM, rnd.randint(1, 4)):
-                            attrs.add((m, sfx))
-                if rnd.random() < 0.3:
-                    attrs.add(('WEBSOCKET', rnd.choice([None, 'alt'])))
-                nonc = set()
-                for _ in range(rnd.choice([0, 0, 0, 1, 2])):
-                    c = (rnd.choice(ALLM), rnd.choice([None, 'alt', 'x']))
-                    if c not in attrs:
-                        nonc.add(c)
-                rkind = rnd.choice(RES_KINDS)
-                res = RES_CLS[rkind]()
-                ctx.count(f'{stack}_resource_object_{rkind}')
-                for m, s in attrs:
-                    setattr(res, 'on_' + m.lower() + ('_' + s if s else ''), mk_responder(rid, m, s))
-                for m, s in nonc:
-                    setattr(res, 'on_' + m.lower() + ('_' + s if s else ''), 'not callable')
-                reg.resources[rid] = {'attrs': attrs, 'noncallable': nonc, 'kind': rkind}
-                objs['res'][rid] = res
-            sfxs = sorted({s for (_, s) in reg.resources[rid]['attrs'] if s}) or ['alt']
-            suffix = rnd.choice(sfxs) if rnd.random() < 0.5 else None
-            # a router handed to the constructor is the app's router: (WSGI) a route added on it directly is a route of the app
-            target = app
-            if objs['router'] is not None and not asgi and rnd.random() < 0.4:
-                target = objs['router']
-                ctx.count('route_added_on_the_explicit_router')
-            try:
-                if suffix is None:
-                    target.add_route(tm, objs['res'][rid])
-                else:
-                    target.add_route(tm, objs['res'][rid], suffix=suffix)
-            except falcon.routing.util.SuffixedMethodNotFoundError:
-                # documented: a suffix without any responder is rejected; the statement then has no route
-                ok = not any(s == suffix for (_, s) in reg.resources[rid]['attrs'])
-                ctx.oracle('add_route(suffix=s) is rejected only when the resource has no on_*_s responder', ok,
-                           None if ok else 'rejected although suffixed responders exist', {'stack': stack, 'app': reg.describe(), 'template': tm, 'suffix': suffix})
-                ctx.count('add_route_rejected_empty_suffix')
-                return
-            reg.routes.append((tm, rid, suffix))
-            objs['tmpl'][tm] = (rid, suffix)
+                rid = new_resource(reg, objs, k)
+            call_add_route(app, reg, objs, tm, rid, pick_suffix(reg, rid), 'new template')
         elif kind == 'sink':
-            px = rnd.choice(SINKS_OPT) if rnd.random() < 0.45 else rnd.choice(SINKS)
+            r = rnd.random()
+            flags = None
+            if r < 0.3:
+                px, flags, _ = rnd.choice(SINKS_FLAGGED)
+            else:
+                px = rnd.choice(SINKS_OPT) if r < 0.6 else rnd.choice(SINKS)
             how = rnd.random()
-            if px == '/' and how < 0.5:
+            if flags is not None:
+                fl = 0
+                for x in flags:
+                    fl |= getattr(re, x)
+                arg = re.compile(px, fl)                              # a precompiled pattern object WITH FLAGS
+                if how < 0.3:
+                    app.add_sink(prefix=arg, sink=mk_sink(k))
+                else:
+                    app.add_sink(mk_sink(k), arg)
+                ctx.count(f'{stack}_add_sink_precompiled_with_flags_' + '|'.join(flags))
+            elif px == '/' and how < 0.5:
+                arg = '/'
                 app.add_sink(mk_sink(k))                              # the documented default prefix
                 ctx.count('add_sink_default_prefix')
             elif how < 0.3:
-                app.add_sink(mk_sink(k), re.compile(px))
+                arg = re.compile(px)
+                flags = ()
+                app.add_sink(mk_sink(k), arg)
             elif how < 0.45:
+                arg = px
                 app.add_sink(prefix=px, sink=mk_sink(k))
             else:
+                arg = px
                 app.add_sink(mk_sink(k), px)
             reg.sinks.append((px, k))
+            reg.sinkarg[k] = arg
+            reg.sinkflags[k] = flags
             reg.ops.append(f's{k}')
-            objs['sinkre'][k] = re.compile(px)
+            reg.history.append(f'add_sink(s{k}, ' + ('re.compile(%r, %s)' % (px, '|'.join('re.' + x for x in flags) or '0') if flags is not None else repr(px)) + ')')
+            objs['sinkre'][k] = reg.sink_pattern(k)
         else:
             px, dk, fb = rnd.choice(STATICS)
             app.add_static_route(px, os.path.join(root, dk), fallback_filename=fb)
@@ -570,6 +804,7 @@ def _stack(ctx, root, asgi):
             objs['static'][k] = sr
             reg.statics.append((px, dk, fb, k))
             reg.ops.append(f't{k}')
+            reg.history.append(f'add_static_route({px!r}, dir_{dk}, fallback_filename={fb!r})')
 
     def model_line(kind, reg, objs, route_info, method, path):
         hits = [f's{k}' for px, k in reg.sinks if objs['sinkre'][k].match(path)] + \
@@ -582,19 +817,21 @@ def _stack(ctx, root, asgi):
             mt = pat.match(path)
             if mt:
                 took_part = [(i, mt.group(i)) for i in range(1, pat.groups + 1) if mt.group(i) is not None]
+                took_part = [(i, esc(v)) for i, v in took_part]
                 for i, v in took_part:
-                    assert not (set(v) & set(' ;:|>,@')), v
+                    assert not (set(v) & set(' ;:|>,@\n\r\t')), v
                 if took_part:
                     grp.append(f's{k}>' + ';'.join(f'{i}:{v}' for i, v in took_part))
         if route_info is None:
-            rt, attrs, sfx, fields = '-', '-', '-', '-'
+            rt, fields = '-', '-'
         else:
-            rid, suffix, params = route_info
-            rt = str(rid)
-            attrs = ','.join(sorted(m + ('~' + s if s else '') for m, s in reg.resources[rid]['attrs'])) or '-'
-            sfx = suffix or '-'
+            tmpl, params = route_info
+            rt = str(TEMPLATES.index(tmpl))
             fields = kwstr(params)
-        return (f"{kind} sbs={reg.ctor['sbs_arg']} ops={','.join(reg.ops) or '-'} route={rt} attrs={attrs} suffix={sfx} "
+        # the model is handed the HISTORY of add_route calls (with the responders the resource object had at each call) and the
+        # uri_template the router returned; which method map that template carries now is the model's business
+        regs = '|'.join(fmt_reg(*c) for c in reg.route_calls) or '-'
+        return (f"{kind} sbs={reg.ctor['sbs_arg']} ops={','.join(reg.ops) or '-'} route={rt} regs={regs} "
                 f"combined={','.join(COMBINED)} hits={','.join(hits) or '-'} method={method} fields={fields} gi={'|'.join(gi) or '-'} grp={'|'.join(grp) or '-'}")
 
     class DummyWS:
@@ -706,7 +943,7 @@ def _stack(ctx, root, asgi):
         for ci in range(ctx.n(5000, 60000)):
             app, sbs, ctor, explicit_router = construct()
             reg = Reg(sbs, ctor)
-            objs = {'res': {}, 'tmpl': {}, 'sinkre': {}, 'static': {}, 'router': explicit_router}
+            objs = {'res': {}, 'tmpl': {}, 'sinkre': {}, 'static': {}, 'router': explicit_router, 'rereg': set()}
             del CREATED[:]
             counter = [0]
             phases = [rnd.randint(0, 6), rnd.choice([0, 0, 1, 2, 3])]
@@ -717,12 +954,22 @@ def _stack(ctx, root, asgi):
                     register(app, reg, objs, counter)
                 for _ in range(rnd.randint(3, 5) if ph else rnd.randint(4, 6)):
                     path = rnd.choice(PATHS + ['/st/f.txt', '/s/x', '/s/y/z', '/st/nope', '/st2/f.txt', '/s', '/st', '/st2', '/st2/', '/s', '/q', '/'])
-                    if reg.routes and rnd.random() < 0.55:
+                    flagged = [k_ for k_, f_ in reg.sinkflags.items() if f_]
+                    if flagged and rnd.random() < 0.4:
+                        # a path on which the flags of a registered pattern object decide (other letter case, a newline, a non-ASCII word character / digit)
+                        k_ = rnd.choice(flagged)
+                        path = rnd.choice(next(ps for px_, fl_, ps in SINKS_FLAGGED if px_ == reg.sinkarg[k_].pattern and fl_ == reg.sinkflags[k_]))
+                    elif rnd.random() < 0.04:
+                        path = rnd.choice(FLAG_PATHS)
+                    elif objs['rereg'] and rnd.random() < 0.5:
+                        path = rnd.choice(sorted(objs['rereg'])).replace('{id}', rnd.choice(['7', 'x.y'])).replace('{top}', rnd.choice(['zz', 'a', 's', 'st']))
+                    elif reg.routes and rnd.random() < 0.55:
                         path = rnd.choice(reg.routes)[0].replace('{id}', rnd.choice(['7', 'x.y'])).replace('{top}', rnd.choice(['zz', 'a', 's', 'st']))
                     method = rnd.choice(ALLM + ['GET', 'GET', 'GET', 'OPTIONS', 'OPTIONS', 'OPTIONS', 'OPTIONS', 'HEAD', 'FOO', 'WEBSOCKET'])
                     if reg.routes and rnd.random() < 0.4:
-                        tm, rid, sfx = rnd.choice(reg.routes)
-                        pool = sorted(m for (m, s) in reg.resources[rid]['attrs'] if s == sfx)
+                        # a method some registration (the current one, or one that has been replaced since) implemented
+                        tm, rid, sfx, snap = rnd.choice(reg.route_calls)
+                        pool = sorted(m for (m, s) in (snap if rnd.random() < 0.5 else reg.resources[rid]['attrs']) if s == (sfx or None))
                         if pool:
                             method = rnd.choice(pool)
                     kind = 'ws' if (asgi and rnd.random() < 0.15) else 'http'
@@ -741,8 +988,7 @@ def _stack(ctx, root, asgi):
                         # what the router answered is an input of the model
                         route_info = None
                         if resource is not None:
-                            rid = next((r for r, o in objs['res'].items() if o is resource), None)
-                            route_info = (rid, objs['tmpl'].get(tmpl, (None, None))[1], params)
+                            route_info = (tmpl, params)
                         mmeth = 'WEBSOCKET' if kind == 'ws' else method
                         sess.op(model_line('get', reg, objs, route_info, mmeth, path), render(oa))
                         # (an HTTP request naming the meta method never reaches _get_responder in the real call; the
@@ -768,11 +1014,25 @@ def _stack(ctx, root, asgi):
                     ctx.count(f'{stack}_{kind}_{okind}')
                     ctx.count(f'{stack}_expected_{exp_full["k"]}')
                     if 'tmpl' in exp_get:
-                        rid_ = next(r for tm_, r, s_ in reg.routes if tm_ == exp_get['tmpl'])
+                        rid_ = reg.current_routes()[exp_get['tmpl']][0]
+                        if exp_get['tmpl'] in objs['rereg']:
+                            ncalls = sum(1 for c in reg.routes if c[0] == exp_get['tmpl'])
+                            same = len({c[1] for c in reg.routes if c[0] == exp_get['tmpl']}) == 1
+                            ctx.count(f'{stack}_request_to_a_template_registered_{min(ncalls, 3)}{"+" if ncalls >= 3 else ""}_times_' + ('always_the_same_object' if same else 'different_objects'))
+                            acc = [c for c in reg.route_calls if c[0] == exp_get['tmpl'] and (c[0], c[1], c[2]) in reg.routes]
+                            if len(acc) >= 2:
+                                sel = [(c[1], frozenset(m_ for (m_, s_) in c[3] if s_ == (c[2] or None)), c[2] or None) for c in acc[-2:]]
+                                if sel[0][0] == sel[1][0] and sel[0] != sel[1]:
+                                    ctx.count(f'{stack}_request_to_a_template_whose_latest_registration_selects_other_responders_of_the_SAME_object_than_the_one_before')
+                        sx_ = exp_get.get('suffix') if exp_get['k'] == 'resource' else (reg.current_routes()[exp_get['tmpl']][1] or None)
+                        if sx_ and any(sx_ != s2 and s2 and sx_.lower() == s2.lower() for (_, s2) in reg.resources[rid_]['attrs']):
+                            ctx.count(f'{stack}_request_to_a_route_whose_suffix_has_a_twin_family_on_the_resource')
                         ctx.count(f'{stack}_request_to_a_route_whose_resource_is_' + ('truthy' if bool(objs['res'][rid_]) else 'FALSY') + f'_{reg.resources[rid_]["kind"]}')
                     if exp_full['k'] == 'sink':
                         pat = objs['sinkre'][exp_full['id']]
                         mt = pat.match(path)
+                        if reg.sinkflags[exp_full['id']]:
+                            ctx.count(f'{stack}_chosen_sink_is_a_pattern_object_with_flags')
                         vals_ = list(exp_full['kw'].values())
                         if not pat.groupindex:
                             shape = 'pattern_without_named_groups'
@@ -787,10 +1047,19 @@ def _stack(ctx, root, asgi):
                         ctx.count(f'{stack}_sink_kwargs_{shape}')
                         if '' in vals_:
                             ctx.count(f'{stack}_sink_kwargs_with_an_empty_string_value')
+                    for k_, f_ in reg.sinkflags.items():
+                        if f_:
+                            p1, p0 = reg.sinkarg[k_], re.compile(reg.sinkarg[k_].pattern)
+                            m1, m0 = p1.match(path), p0.match(path)
+                            if bool(m1) != bool(m0) or (m1 and m1.groupdict() != m0.groupdict()):
+                                ctx.count(f'{stack}_request_path_on_which_the_flags_of_a_registered_pattern_object_decide')
+                                if exp_full['k'] == 'sink' and exp_full['id'] == k_ or not m1 and exp_full['k'] != 'resource' and 'tmpl' not in exp_full:
+                                    ctx.count(f'{stack}_request_whose_outcome_may_depend_on_those_flags')
+                                break
                     if exp_full['k'] in ('sink', 'static'):
-                        nm = sum(1 for px, k in reg.sinks if re.compile(px).match(path)) + sum(1 for px, dk, fb, k in reg.statics if reg.static_matches(px, fb, path))
+                        nm = sum(1 for px, k in reg.sinks if reg.sink_pattern(k).match(path)) + sum(1 for px, dk, fb, k in reg.statics if reg.static_matches(px, fb, path))
                         ctx.count(f'{stack}_fallback_with_{min(nm, 3)}{"+" if nm >= 3 else ""}_matching_entries')
-                        if any(re.compile(px).match(path) for px, k in reg.sinks) and any(reg.static_matches(px, fb, path) for px, dk, fb, k in reg.statics):
+                        if any(reg.sink_pattern(k).match(path) for px, k in reg.sinks) and any(reg.static_matches(px, fb, path) for px, dk, fb, k in reg.statics):
                             ctx.count(f'{stack}_fallback_sink_and_static_both_match_sbs={int(reg.sbs)}')
     finally:
         BASE._STATIC_ROUTE_TYPE = saved_static_type
@@ -799,11 +1068,11 @@ def _stack(ctx, root, asgi):
     sess.finish()
 
 
-LEVEL_TEXT = ('Machine-checked proofs (Lean 4) about a model of add_route (map_http_methods + set_default_responders, with suffixes), add_sink, add_static_route, '
+LEVEL_TEXT = ('Machine-checked proofs (Lean 4) about a model of add_route (map_http_methods + set_default_responders, with suffixes; the node override of CompiledRouter.add_route over whole registration histories), add_sink, add_static_route, '
               '_update_sink_and_static_routes and App._get_responder / the meta-method guard of App.__call__: a route masks every sink and static route; '
               'without a route the first matching entry of the configured order is chosen and 404 iff none matches; after any registration history the order is '
               'sinks by recency then static routes by recency (or swapped); the Allow sets of the automatic OPTIONS and 405 responders are exact for every set of '
-              'implemented methods (WEBSOCKET never leaks); suffixed routes reach only suffixed responders; kwargs are the template fields / groupdict() of the chosen sink\'s match - every named group of its prefix pattern, None for groups that did not take part, '
+              'implemented methods (WEBSOCKET never leaks); suffixed routes reach only suffixed responders (suffix compared verbatim, empty = none); after any history of add_route calls a template answers from the method map of its latest accepted registration, also when the same object is registered again; kwargs are the template fields / groupdict() of the chosen sink\'s match - every named group of its prefix pattern, None for groups that did not take part, '
               'also when no group took part at all; the constructor default of sink_before_static_route is True; '
               'WEBSOCKET over HTTP is 400. The model is tied to falcon on every run: generated WSGI and ASGI apps built through falcon.App, falcon.API, falcon.asgi.App and subclasses with every constructor option omitted / by keyword / positional, each request observed on the responder returned by '
               '_get_responder and through the full application call, compared with the compiled model, and judged by an independent oracle written from the statement.')
